@@ -92,6 +92,7 @@ func (r *rng) text(alpha []string, maxParts int) string {
 // ---------- generator context ----------
 
 type Gen struct {
+	cbN    int
 	x      *Exec
 	r      *rng
 	goOps  []string // Go-level op lines of the current case
@@ -148,6 +149,9 @@ func (g *Gen) anyItem(alpha []string, parts int) string {
 		return g.item(fmt.Sprintf("obj:%d:s=%s:g=%s:e=%s", mask, hx(r.text(alpha, parts)), hx(r.text(alpha, parts)), hx(r.text(alpha, parts))))
 	case k == 18:
 		inner := g.strItem(r.text(alpha, parts))
+		if r.chance(1, 3) {
+			return g.item("cellp:" + inner)
+		}
 		return g.item("cell:" + inner)
 	default:
 		inner := g.strItem(r.text(alpha, parts))
@@ -275,6 +279,37 @@ func (g *Gen) buildTable(o tableOpts) string {
 func (g *Gen) ncols(t string) int { return g.x.tables[idOf(t)].NColumns() }
 
 // random alignment / skipable assignments on column 0 and each column
+// assignPropsAtRender: callbacks on some columns (and the defaults column) that set the property
+// during the render pass; the render that runs them already lays out with the value they set.
+func (g *Gen) assignPropsAtRender(t string, key string, vals []string) {
+	n := g.ncols(t)
+	for c := 0; c <= n; c++ {
+		if g.r.chance(1, 3) {
+			g.cbN++
+			g.do(fmt.Sprintf("regcb %s c:%d:%d %s itself set:%d:%s:%s", t, idOf(t), c, g.r.pick([]string{"pre", "render", "post"}), 9000+g.cbN, key, g.r.pick(vals)))
+		}
+	}
+}
+
+// reattach: with the given odds, AddRow once more a row the table already holds (usually the last one),
+// so that one *Row sits at two positions.
+func (g *Gen) reattach(t string, num, den int) {
+	if !g.r.chance(num, den) {
+		return
+	}
+	rows := g.x.tables[idOf(t)].AllRows()
+	if len(rows) == 0 {
+		return
+	}
+	i := len(rows) - 1
+	if g.r.chance(1, 3) {
+		i = g.r.n(len(rows))
+	}
+	if id, ok := g.x.rowID[rows[i]]; ok {
+		g.do(fmt.Sprintf("addrow %s R%d", t, id))
+	}
+}
+
 func (g *Gen) assignProps(t string, key string, vals []string) {
 	n := g.ncols(t)
 	for c := 0; c <= n; c++ {
